@@ -67,7 +67,7 @@ func runC04(res *lib.Result, tier string, seed int64, args []string) error {
 	if tier == "thorough" {
 		nDocs, nProg = 200000, 20000
 	}
-	res.Rule = "documents in which identifiers are placed after arbitrary preceding tokens on the same line (plain / escaped / non-ASCII short strings, long-bracket strings and comments, tabs) with all line endings, plus grammar-derived programs and mutants: (1) real lexer token stream = lexer model (kinds, texts, lines, Locs), (2) for every identifier token the reported (line, start, end) vs the true LSP position of its bytes (S-col), every deviation must fall into a class computed from the line prefix; (3) every Loc in the parser's error list (the type-1 diagnostics) of near-valid programs is well formed (start <= end, line inside the document); non-trivial = an identifier with a non-empty line prefix; distinct by document"
+	res.Rule = "documents in which identifiers are placed after arbitrary preceding tokens on the same line (plain / escaped / non-ASCII short strings, long-bracket strings and comments, tabs) with all line endings, plus grammar-derived programs and mutants: (1) real lexer token stream = lexer model (kinds, texts, lines, Locs), (2) for every identifier token the reported (line, start, end) vs the true LSP position of its bytes (S-col), every deviation must fall into a class computed from the line prefix; (3) every Loc in the parser's error list (the type-1 diagnostics) of near-valid programs is well formed (start <= end, line inside the document); (4) the AST of those programs, with the Loc of every node (declared names, attributes, parameters, member keys), equals the parser model's; non-trivial = an identifier with a non-empty line prefix; distinct by document"
 	drv, err := lib.StartDriver()
 	if err != nil {
 		return err
@@ -151,6 +151,13 @@ func runC04(res *lib.Result, tier string, seed int64, args []string) error {
 			continue
 		}
 		src := renderTokens(r, toks)
+		// (4) every Loc the parser attaches to an AST node (names, parameters, attributes, members) = parser model
+		if diff, unmod, _, err := compareParse(drv, []byte(src)); err != nil {
+			return err
+		} else if !unmod && diff != "" {
+			res.AddViolation("impl-vs-model", "parser Locs: "+diff, fmt.Sprintf("%q", src), true)
+			continue
+		}
 		dump, _, _ := lib.ParseDump([]byte(src))
 		nLines := strings.Count(src, "\n") + strings.Count(src, "\r") + 2
 		res.Count(src, true)
